@@ -38,6 +38,7 @@ pub struct Profile {
     pub p_math_exprs: f64,
     pub p_where_col_cmp: f64,
     pub p_where_fn: f64,
+    pub p_schema_path: f64,
     pub p_cond_agg: f64,
     pub p_inner_where: f64,
     pub p_join_of_subqueries: f64,
@@ -80,6 +81,7 @@ impl Profile {
             p_math_exprs: 0.06,
             p_where_col_cmp: 0.05,
             p_where_fn: 0.05,
+            p_schema_path: 0.0,
             p_cond_agg: 0.04,
             p_inner_where: 0.5,
             p_join_of_subqueries: 0.0,
@@ -95,7 +97,7 @@ impl Profile {
         match prop {
             "C03" => Profile { p_on_or: 0.04, p_cross: 0.04, p_outer_kinds: 0.05, p_multi_dp: 0.06, p_shared_cte: 0.05, p_nested_group: 0.03, ..base },
             "C01" => Profile { p_nested_by_id: 0.04, p_on_or: 0.06, p_cross: 0.06, p_outer_kinds: 0.06, p_shared_cte: 0.03, p_nested_group: 0.05, ..base },
-            "C09" => Profile { p_cond_agg: 0.15, p_where_fn: 0.2, p_where_col_cmp: 0.2, p_math_exprs: 0.2, p_count_of_unique: 0.6, p_fn_exprs: 0.25, p_modulo: 0.12, p_alias_shadow: 0.4, public_keys_only: true, benign_data: true, p_distinct: 0.12, p_row_privacy: 0.15, p_grouped: 0.65, ..base },
+            "C09" => Profile { p_schema_path: 0.1, p_cond_agg: 0.15, p_where_fn: 0.2, p_where_col_cmp: 0.2, p_math_exprs: 0.2, p_count_of_unique: 0.6, p_fn_exprs: 0.25, p_modulo: 0.12, p_alias_shadow: 0.4, public_keys_only: true, benign_data: true, p_distinct: 0.12, p_row_privacy: 0.15, p_grouped: 0.65, ..base },
             "C04" => Profile { p_where_fn: 0.2, p_unsupported_agg: 0.08, p_key_via_agg: 0.25, p_nested_group: 0.08, p_nested: 0.0, need_private_key: true, p_grouped: 1.0, p_outer: 0.0, p_distinct: 0.05, ..base },
             "C16" => Profile { benign_data: true, full_catalogue: true, p_public_table: 1.0, p_synthetic: 0.3, ..base },
             "C02" => Profile { p_where_fn: 0.1, p_pu_without_root: 0.08, p_extra_select: 0.05, p_join_of_subqueries: 0.05, p_on_or: 0.04, p_unsupported_agg: 0.08, p_cross: 0.04, p_outer_kinds: 0.05, p_multi_dp: 0.04, p_nested_group: 0.03, p_shared_cte: 0.08, p_plain: 0.25, p_synthetic: 0.4, p_public_table: 0.5, p_outer: 0.2, ..base },
@@ -883,6 +885,7 @@ pub fn generate(seed: u64, run: u64, prop: &str) -> Generated {
                 inner_where: vec![],
                 outer_group_by: false,
                 extra_select: vec![],
+                shadow_cte: None,
             };
             let base = Some((a, base_name.clone()));
             return finish(seed, run, tables2, synthetic, pu, params, query, base, tags, faults, &protected);
@@ -924,7 +927,7 @@ pub fn generate(seed: u64, run: u64, prop: &str) -> Generated {
                 sql
             };
             tags.push("multi_dp".into());
-            let query = QuerySpec { from: vec![], where_: vec![], keys: vec![], aggs: vec![], having: None, outer: None, plain: None, cte: None, raw_sql: None, holders_override: None, inner_where: vec![], outer_group_by: false, extra_select: vec![] };
+            let query = QuerySpec { from: vec![], where_: vec![], keys: vec![], aggs: vec![], having: None, outer: None, plain: None, cte: None, raw_sql: None, holders_override: None, inner_where: vec![], outer_group_by: false, extra_select: vec![], shadow_cte: None };
             let base = Some((a, base_t.name.clone()));
             let mut g = finish(seed, run, tables, synthetic, pu, params, query, base, tags, faults, &protected);
             g.scenario.sql = sql;
@@ -957,9 +960,25 @@ pub fn generate(seed: u64, run: u64, prop: &str) -> Generated {
             let order = rg.chance(0.5);
             let (first, second) = ("SELECT v AS v FROM t".to_string(), "SELECT sum(v) / 50 AS v FROM t".to_string());
             let sql = if order { format!("WITH t AS ({}) {} UNION ALL {}", inner, first, second) } else { format!("WITH t AS ({}) {} UNION ALL {}", inner, second, first) };
+            // ... or published with its key on one side, filtered and aggregated again under an
+            // expression on the other (own stream): two derivations of one shared reduce
+            let mut rsf = Rng::stream(seed, run, "shared_cte_filtered");
+            let sql = if rsf.chance(0.5) {
+                let zero = if matches!(kc.ty, ColType::Text | ColType::TextValues(_)) { "'zz'" } else if matches!(kc.ty, ColType::Bool) { "FALSE" } else { "0" };
+                let thr = rsf.below(4) as f64 * 25.0 + 0.5;
+                let (keep, again) = ("SELECT k AS k, v AS v FROM t".to_string(), format!("SELECT {} AS k, 1 * sum(v) AS v FROM big", zero));
+                tags.push("shared_cte_filtered".into());
+                if rsf.chance(0.7) {
+                    format!("WITH t AS ({}), big AS (SELECT k, v FROM t WHERE v > {:?}) {} UNION ALL {}", inner, thr, keep, again)
+                } else {
+                    format!("WITH t AS ({}), big AS (SELECT k, v FROM t WHERE v > {:?}) {} UNION ALL {}", inner, thr, again, keep)
+                }
+            } else {
+                sql
+            };
             tags.push(format!("keys:{}", if public_set_of(&kc.ty).is_some() { "pub" } else { "priv" }));
             tags.push("shared_cte".into());
-            let query = QuerySpec { from: vec![], where_: vec![], keys: vec![], aggs: vec![], having: None, outer: None, plain: None, cte: None, raw_sql: None, holders_override: None, inner_where: vec![], outer_group_by: false, extra_select: vec![] };
+            let query = QuerySpec { from: vec![], where_: vec![], keys: vec![], aggs: vec![], having: None, outer: None, plain: None, cte: None, raw_sql: None, holders_override: None, inner_where: vec![], outer_group_by: false, extra_select: vec![], shadow_cte: None };
             let base = Some((a, base_t.name.clone()));
             let mut g = finish(seed, run, tables, synthetic, pu, params, query, base, tags, faults, &protected);
             g.scenario.sql = sql;
@@ -989,7 +1008,7 @@ pub fn generate(seed: u64, run: u64, prop: &str) -> Generated {
             let sql = format!("SELECT sum(t.a) AS a0 FROM (SELECT o.id AS id, {}(o.{}) AS a FROM orders AS o GROUP BY o.id) AS t", f, vc);
             tags.push("nested_by_id".into());
             let base = Some(("o".to_string(), "orders".to_string()));
-            let query = QuerySpec { from: vec![], where_: vec![], keys: vec![], aggs: vec![], having: None, outer: None, plain: None, cte: None, raw_sql: None, holders_override: None, inner_where: vec![], outer_group_by: false, extra_select: vec![] };
+            let query = QuerySpec { from: vec![], where_: vec![], keys: vec![], aggs: vec![], having: None, outer: None, plain: None, cte: None, raw_sql: None, holders_override: None, inner_where: vec![], outer_group_by: false, extra_select: vec![], shadow_cte: None };
             let protected2: Vec<String> = protected.iter().filter(|t| *t != "items").cloned().collect();
             let synthetic2: Vec<TableSpec> = synthetic.iter().filter(|t| !t.name.contains("items")).cloned().collect();
             let mut g = finish(seed, run, tables2, synthetic2, pu2, params, query, base, tags, faults, &protected2);
@@ -1013,7 +1032,7 @@ pub fn generate(seed: u64, run: u64, prop: &str) -> Generated {
                 oc = oc
             );
             let base = Some(("u".to_string(), "users".to_string()));
-            let query = QuerySpec { from: vec![], where_: vec![], keys: vec![], aggs: vec![], having: None, outer: None, plain: None, cte: None, raw_sql: None, holders_override: None, inner_where: vec![], outer_group_by: false, extra_select: vec![] };
+            let query = QuerySpec { from: vec![], where_: vec![], keys: vec![], aggs: vec![], having: None, outer: None, plain: None, cte: None, raw_sql: None, holders_override: None, inner_where: vec![], outer_group_by: false, extra_select: vec![], shadow_cte: None };
             let mut g = finish(seed, run, tables, synthetic, pu, params, query, base, tags, faults, &protected);
             g.scenario.sql = sql;
             g.scenario.query = None;
@@ -1032,7 +1051,7 @@ pub fn generate(seed: u64, run: u64, prop: &str) -> Generated {
         tags.push("plain".into());
         let set_op = if from.len() == 1 && rg.chance(0.3) { Some(*rg.pick(&["UNION", "UNION ALL", "EXCEPT", "INTERSECT"])) } else { None };
         let base = Some((alias_of(&base_t.name), base_t.name.clone()));
-        let query = QuerySpec { from, where_, keys: vec![], aggs: vec![], having: None, outer: None, plain: Some(plain), cte: None, raw_sql: None, holders_override: None, inner_where: vec![], outer_group_by: false, extra_select: vec![] };
+        let query = QuerySpec { from, where_, keys: vec![], aggs: vec![], having: None, outer: None, plain: Some(plain), cte: None, raw_sql: None, holders_override: None, inner_where: vec![], outer_group_by: false, extra_select: vec![], shadow_cte: None };
         if let Some(op) = set_op {
             // a set operation of the projection with itself (both branches read protected rows)
             tags.push("set_operation".into());
@@ -1367,7 +1386,7 @@ pub fn generate(seed: u64, run: u64, prop: &str) -> Generated {
             tags.push("nested".into());
         }
     }
-    let mut query = QuerySpec { from, where_, keys, aggs, having, outer: if cte.is_some() { None } else { outer }, plain: None, cte, raw_sql: None, holders_override: None, inner_where: vec![], outer_group_by: false, extra_select: vec![] };
+    let mut query = QuerySpec { from, where_, keys, aggs, having, outer: if cte.is_some() { None } else { outer }, plain: None, cte, raw_sql: None, holders_override: None, inner_where: vec![], outer_group_by: false, extra_select: vec![], shadow_cte: None };
     // HAVING on a SUM (own stream) instead of on count(*): the threshold has a fraction no sum of
     // generated values hits, so rounding cannot decide the group
     let mut rha = Rng::stream(seed, run, "having_agg");
@@ -1687,6 +1706,25 @@ pub fn generate(seed: u64, run: u64, prop: &str) -> Generated {
             tags.push("inner_where".into());
         }
     }
+    // a schema-qualified catalogue (tables registered as main.<name>), and on it a CTE named like
+    // the table it filters: `WITH orders AS (SELECT * FROM main.orders AS o WHERE ...) ... FROM
+    // orders AS o` - the CTE shadows the table (own stream)
+    let mut rsp = Rng::stream(seed, run, "schema_path");
+    if rsp.chance(profile.p_schema_path) && synthetic.is_empty() && tables.iter().all(|t| t.qrlew_name.is_none()) {
+        tags.push("schema_path".into());
+        if query.cte.is_none() && query.inner_where.is_empty() && rsp.chance(0.8) {
+            let prefix = format!("{}.", query.from[0].alias);
+            let others: Vec<String> = query.from.iter().skip(1).map(|f| format!("{}.", f.alias)).collect();
+            if let Some(i) = query.where_.iter().position(|w| w.contains(&prefix) && !others.iter().any(|o| w.contains(o.as_str()))) {
+                let w = query.where_.remove(i);
+                query.inner_where.push(w);
+            }
+        }
+        if query.cte.is_none() && !query.inner_where.is_empty() {
+            query.shadow_cte = Some("main".into());
+            tags.push("shadow_cte".into());
+        }
+    }
     // COUNT of a UNIQUE column of the NULL-extended side of a LEFT JOIN (own stream)
     let mut rcu = Rng::stream(seed, run, "count_of_unique");
     if rcu.chance(profile.p_count_of_unique) && query.cte.is_none() {
@@ -1879,6 +1917,7 @@ fn finish(
         compile,
         engine_seed: re.next_u64(),
         depth: 0,
+        schema_prefix: if all_tags.iter().any(|t| t == "schema_path") { Some("main".into()) } else { None },
         tags: all_tags,
     };
     Generated { scenario, faults }
